@@ -1,4 +1,5 @@
 #!/bin/sh
+export VK_NO_EVIDENCE=1
 # usage: sh vk/with_patch.sh [-R] <patch.diff> <command...>   -- applies the patch to /repo, runs the command, reverts.
 REV=""
 if [ "$1" = "-R" ]; then REV="-R"; shift; fi
